@@ -140,18 +140,20 @@ def _reader_mass(ctx):
     # still filled from the embedded tables: what one table serves is never the source of another
     saved_pub = I.module_cache.get(("core", "PUBLIC_TABLE"))
     I.module_cache[("core", "PUBLIC_TABLE")] = T
-    fe_h, fe54_h = I.heap[I.getattr(T, "Fe").id], I.heap[I.heap[I.getattr(T, "Fe").id]["_isotopes"][54].id]
+    fe_id = I.getattr(T, "Fe").id
+    fe54_id = I.heap[fe_id]["_isotopes"][54].id
+    fe_h, fe54_h = I.heap[fe_id], I.heap[fe54_id]
     before_edit = (fe_h.get("_mass"), fe54_h.get("_abundance"), fe54_h.get("_mass"))
     # (the real tables have a mass for every element; the probe tables list a few: the others get a placeholder so that
     # the standing public table is complete)
     filled = []
     for z_ in range(0, 119):
-        h_ = I.heap[I.lib.subscript(I, T, sp.Integer(z_)).id]
-        for o_ in [h_] + [I.heap[i_.id] for i_ in h_.get("_isotopes", {}).values()]:
-            for k_ in ("_mass", "_mass_unc") + (("_abundance", "_abundance_unc") if o_ is not h_ else ()):
-                if k_ not in o_:
-                    o_[k_] = sp.Integer(0)
-                    filled.append((o_, k_))
+        eid_ = I.lib.subscript(I, T, sp.Integer(z_)).id
+        for oid_ in [eid_] + [i_.id for i_ in I.heap[eid_].get("_isotopes", {}).values()]:
+            for k_ in ("_mass", "_mass_unc") + (("_abundance", "_abundance_unc") if oid_ != eid_ else ()):
+                if k_ not in I.heap[oid_]:
+                    I.heap[oid_][k_] = sp.Integer(0)
+                    filled.append((oid_, k_))
     fe_h["_mass"], fe54_h["_abundance"], fe54_h["_mass"] = sp.Integer(999), sp.Integer(99), sp.Integer(998)
     try:
         T3 = I.instantiate(PT, ["third"], {}, name="T3", open_attrs=())
@@ -164,9 +166,12 @@ def _reader_mass(ctx):
             ctx.check(got3 == before_edit, "R6", "a table initialised after the public table's masses were edited gets the embedded values",
                       f"Fe mass, Fe-54 abundance, Fe-54 mass = {got3}, the embedded tables give {before_edit}: values were copied from the edited table", site)
     finally:
+        # (the heap dictionaries are looked up again: the interpreter may have replaced them by copies at a join)
+        fe_h = I.heap[fe_id]
+        fe54_h = I.heap[fe54_id]
         fe_h["_mass"], fe54_h["_abundance"], fe54_h["_mass"] = before_edit
-        for o_, k_ in filled:
-            o_.pop(k_, None)
+        for oid_, k_ in filled:
+            I.heap[oid_].pop(k_, None)
         if saved_pub is None:
             I.module_cache.pop(("core", "PUBLIC_TABLE"), None)
         else:
@@ -179,8 +184,9 @@ def _reader_mass(ctx):
               "Element.mass not installed", site)
     # served through the properties
     Fe = I.getattr(T, "Fe")
-    ctx.check(close(fr(I.getattr(Fe, "mass")), R("55.75(5)")[0]) and close(fr(I.getattr(I.lib.subscript(I, Fe, 54), "abundance")), 6.25),
-              "R1", "Element.mass and Isotope.abundance serve the stored values", "property does not return the stored value", site)
+    served_ = (I.getattr(Fe, "mass"), I.getattr(I.lib.subscript(I, Fe, 54), "abundance"))
+    ctx.check(close(fr(served_[0]), R("55.75(5)")[0]) and close(fr(served_[1]), 6.25),
+              "R1", "Element.mass and Isotope.abundance serve the stored values", f"Fe.mass, Fe[54].abundance = {served_}, stored 55.75 and 6.25", site)
     ctx.floor("R1", 30)
     ctx.floor("R2", 2)
 
